@@ -141,8 +141,13 @@ def main(argv=None):
     env = dict(os.environ)
     for k in ("PKGCORE_VERIF", "PKGCORE_VERIF_TRACE"):
         env.pop(k, None)
+    # VT_PKGCORE_ROOT (development only): run against a scratch copy/worktree of pkgcore instead
+    # of /repo, e.g. to try a seeded breaking change without touching /repo.  Registered checks
+    # never set it, so they always exercise /repo's working tree (editable install in /venv).
+    alt = os.environ.get("VT_PKGCORE_ROOT")
+    pypath = ROOT + (os.pathsep + os.path.join(alt, "src") if alt else "")
     env.update(
-        VT_RUN_ID=run_id, PYTHONPATH=ROOT, PYTHONHASHSEED="0", PYTHONDONTWRITEBYTECODE="1",
+        VT_RUN_ID=run_id, PYTHONPATH=pypath, PYTHONHASHSEED="0", PYTHONDONTWRITEBYTECODE="1",
         LC_ALL="C.UTF-8", LANG="C.UTF-8", PKGCORE_VERIF="1",
     )
     env.pop("PYTEST_CURRENT_TEST", None)
